@@ -109,6 +109,34 @@ def check_mutable_defaults(rep, repo: Repo, pre: str = "") -> int:
     stored on an object, appended to or returned makes every object built with the default share - and accumulate in -
     that one container."""
     n = 0
+    # the same for the default of a record field (`class Doc(NamedTuple): data: list = []`): one list for every record built
+    # without that field; filled through any of them it is seen by all
+    from .ir import named_tuple_fields
+    for mi in repo.modules.values():
+        for cname, ci in mi.classes.items():
+            for fname, d in named_tuple_fields(repo, cname) or ():
+                if d is None or not (isinstance(d, (ast.List, ast.Dict, ast.Set)) or (
+                        isinstance(d, ast.Call) and isinstance(d.func, ast.Name) and d.func.id in ("list", "dict", "set") and not d.args)):
+                    continue
+                n += 1
+                fill = None
+                for m2 in repo.modules.values():
+                    for node in ast.walk(m2.tree):
+                        if isinstance(node, ast.Call) and isinstance(node.func, ast.Attribute) and isinstance(node.func.value, ast.Attribute) \
+                                and node.func.value.attr == fname and node.func.attr in ("append", "extend", "insert", "update", "add", "setdefault"):
+                            fill = node
+                        if isinstance(node, ast.Subscript) and isinstance(node.ctx, ast.Store) and isinstance(node.value, ast.Attribute) \
+                                and node.value.attr == fname:
+                            fill = node
+                getter = None
+                if fill is not None:
+                    getter = next((f for f in repo.all_functions() if any(x is fill for x in ast.walk(f.node))), None)
+                getter = getter or next(iter(ci.methods.values()), None) or next(iter(mi.functions.values()), None) \
+                    or next(iter(repo.all_functions()))
+                rep.fn(pre + "MUTABLE-default", getter, f"default of record field {cname}.{fname} ({unparse(d)}) is never filled", fill is None,
+                       f"'{unparse(fill)[:70] if fill is not None else ''}' fills the one default object shared by every {cname} built "
+                       "without that field: what one call collects is still there for the next",
+                       line=getattr(fill, "lineno", ci.node.lineno))
     for fi in repo.all_functions():
         a = fi.node.args
         pos = a.posonlyargs + a.args
